@@ -639,6 +639,11 @@ func (w *world) judge(stream string, s *sideRun, hung bool) (obs string) {
 				s.res.ProtoVersion, s.res.ClientVersion, l.ver, l.client), ops)
 		}
 	}
+	// a side that did not accept the peer's credentials must never put ack(Null) on the wire: the
+	// peer would read it as success and the two ends would disagree
+	if wrote := showFrames(s.c.written()); strings.Contains(wrote, "A0") && !w.acceptedPeer(s) {
+		r.Violate("C14", "", stream+".null-ack-on-rejection", "side sent ack(Null) although it did not accept the peer's credentials ("+l.why+"): its peer reads success while this side fails — different verdicts (wrote "+wrote+")", ops)
+	}
 	if s.c.maxReq > sizeLimit+hdr {
 		r.Violate(prop, "", stream+".alloc", fmt.Sprintf("a single read asked for %d bytes (> frame limit)", s.c.maxReq), ops)
 	}
@@ -826,7 +831,91 @@ type mutation struct {
 	stall bool // after a truncation: keep the stream open instead of closing it
 }
 
-var mutKinds = []string{"truncate", "oversize", "len+", "len-", "len0", "type", "swap-ack", "swap-cred", "garbage", "garbage-payload", "bitflip", "dup", "drop", "empty-payload"}
+var mutKinds = []string{"truncate", "oversize", "len+", "len-", "len0", "type", "swap-ack", "swap-cred", "garbage", "garbage-payload", "bitflip", "dup", "drop", "empty-payload",
+	// credentials rewritten so that each distinct rejection path of both checkers is taken by a real side
+	"cred-bad-identity", "cred-bad-sig", "cred-skipverify", "cred-bad-payload", "cred-bad-version", "cred-no-payload", "cred-bad-client", "cred-foreign-identity"}
+
+// rewriteCred re-encodes a credentials frame with one aspect damaged; other frames are bit-flipped.
+func (w *world) rewriteCred(kind string, f []byte) []byte {
+	r := w.r
+	if len(f) < hdr || f[0] != 1 {
+		g := append([]byte{}, f...)
+		g[len(g)-1] ^= 1
+		return g
+	}
+	c := &handshakeproto.Credentials{}
+	if c.UnmarshalVT(f[hdr:]) != nil {
+		return f
+	}
+	pl := &handshakeproto.PayloadSignedPeerIds{}
+	_ = pl.UnmarshalVT(c.Payload)
+	cs := credSpec{}
+	if c.Type != 0 {
+		cs.typ = u32(uint32(c.Type))
+	}
+	if c.Version != 0 {
+		cs.ver = u32(c.Version)
+	}
+	if c.ClientVersion != "" {
+		cs.client = str(c.ClientVersion)
+	}
+	id, sig := pl.Identity, pl.Sign
+	hasPl := len(c.Payload) > 0
+	switch kind {
+	case "cred-bad-identity":
+		hasPl = true
+		switch r.Intn(4) {
+		case 0:
+			id = []byte{1, 2, 3, 4, 5, 6, 7, 8, 9, 10} // not a key message
+		case 1:
+			id = protowire.AppendBytes(protowire.AppendTag(nil, 2, protowire.BytesType), make([]byte, 31)) // short key data
+		case 2:
+			id = protowire.AppendBytes(protowire.AppendTag(protowire.AppendVarint(protowire.AppendTag(nil, 1, protowire.VarintType), 1), 2, protowire.BytesType), make([]byte, 32)) // private-key type
+		default:
+			id = nil
+		}
+		if cs.typ == nil {
+			cs.typ = u32(1)
+		}
+	case "cred-bad-sig":
+		hasPl = true
+		sig = append([]byte{}, sig...)
+		if len(sig) == 0 {
+			sig = []byte{1}
+		} else {
+			sig[r.Intn(len(sig))] ^= 0x10
+		}
+	case "cred-skipverify":
+		cs.typ = nil
+	case "cred-bad-payload":
+		cs.hasPl, cs.payload = true, []byte{0xff, 0xff, 0xff}
+		if cs.typ == nil {
+			cs.typ = u32(1)
+		}
+		return frame(1, cs.bytes())
+	case "cred-bad-version":
+		cs.ver = u32(99)
+	case "cred-no-payload":
+		hasPl = false
+		if cs.typ == nil {
+			cs.typ = u32(1)
+		}
+	case "cred-bad-client":
+		cs.client = str("x-" + badClient)
+	case "cred-foreign-identity":
+		// a well-formed key nobody signed with
+		k, _ := accountdata.NewRandom()
+		id, _ = k.SignKey.GetPublic().Marshall()
+		hasPl = true
+		if cs.typ == nil {
+			cs.typ = u32(1)
+		}
+	}
+	if hasPl {
+		cs.hasPl, cs.payload = true, signedPayload(id, sig, len(id) > 0, len(sig) > 0)
+	}
+	return frame(1, cs.bytes())
+}
 
 // mutate returns the bytes delivered instead of the frame, and whether the stream ends afterwards.
 func (w *world) mutate(m mutation, f []byte, prev []byte) (out []byte, cut bool) {
@@ -904,6 +993,9 @@ func (w *world) mutate(m mutation, f []byte, prev []byte) (out []byte, cut bool)
 		return nil, !m.stall
 	case "empty-payload":
 		return frame(f[0], nil), false
+	}
+	if strings.HasPrefix(m.kind, "cred-") {
+		return w.rewriteCred(m.kind, f), false
 	}
 	return f, false
 }
@@ -1143,7 +1235,7 @@ func (w *world) mutatedPair(oc, ic sideCfg, m mutation) {
 		}
 		// once the initiator has sent its final ack the responder's verdict no longer depends on
 		// anything the initiator receives (no protocol can do better after the last message)
-		if other.err == nil && !(other == po.in && sentFinalAck(po.out)) {
+		if other.err == nil && !(other == po.in && w.acceptedPeer(po.out)) {
 			r.Violate("C14", "", "hs.mitm.other-side", fmt.Sprintf("frame %d was corrupted (%s): receiver failed but the other end reported success", m.frame, l.why), []string{line})
 		}
 	} else {
@@ -1154,8 +1246,12 @@ func (w *world) mutatedPair(oc, ic sideCfg, m mutation) {
 	}
 }
 
-// sentFinalAck: the initiator accepted the responder's credentials and wrote its ack(Null).
-func sentFinalAck(out *sideRun) bool { return strings.HasPrefix(showFrames(out.c.written()), "C,A0") }
+// acceptedPeer: the side received a complete credentials frame that satisfies its checker — only
+// then may it have sent ack(Null), after which the responder's verdict no longer depends on it.
+func (w *world) acceptedPeer(s *sideRun) bool {
+	_, p, _, why := readFrame(s.fed, 1)
+	return why == "" && w.credLegit(s.cfg, p).ok
+}
 
 func (w *world) cancelledPair(oc, ic sideCfg, at int, side string) {
 	r := w.r
@@ -1176,7 +1272,7 @@ func (w *world) cancelledPair(oc, ic sideCfg, at int, side string) {
 	}
 	// the other end must fail too, except the responder that had already returned before the
 	// initiator was cancelled (after the last ack no protocol can do better)
-	if other.err == nil && !(other == po.in && sentFinalAck(po.out)) {
+	if other.err == nil && !(other == po.in && w.acceptedPeer(po.out)) {
 		r.Violate("C14", "", "hs.cancel.remote", "peer of a cancelled side reported success", []string{line})
 	}
 }
@@ -1252,7 +1348,7 @@ func (w *world) randCredSpec(victim sideCfg, good bool) credSpec {
 	}
 	id := w.accts[idAcct].idBytes
 	sig := w.sign(signer, prover+verifier)
-	kind := r.Intn(12)
+	kind := r.Intn(14)
 	if good {
 		kind = 0
 	}
@@ -1281,6 +1377,12 @@ func (w *world) randCredSpec(victim sideCfg, good bool) credSpec {
 			g[i] = byte(r.Intn(256))
 		}
 		cs.typ, cs.hasPl, cs.payload = u32(uint32(r.Intn(3))), true, g
+	case 12: // identity that is not a key message at all / key data of the wrong length
+		bad := [][]byte{{1, 2, 3}, protowire.AppendBytes(protowire.AppendTag(nil, 2, protowire.BytesType), make([]byte, 31)), id[:len(id)-1]}[r.Intn(3)]
+		cs.typ, cs.hasPl, cs.payload = u32(1), true, signedPayload(bad, sig, true, true)
+	case 13: // private-key typed identity
+		bad := protowire.AppendBytes(protowire.AppendTag(protowire.AppendVarint(protowire.AppendTag(nil, 1, protowire.VarintType), 1), 2, protowire.BytesType), make([]byte, 32))
+		cs.typ, cs.hasPl, cs.payload = u32(1), true, signedPayload(bad, sig, true, true)
 	}
 	if r.Chance(10) {
 		cs.dupVer = u32(w.randVer())
@@ -1627,6 +1729,13 @@ func Run(r *corr.Run) {
 		case k < 9:
 			oc, ic := w.randPair(true)
 			m := mutation{frame: 1 + r.Intn(4), kind: mutKinds[r.Intn(len(mutKinds))], stall: r.Chance(25)}
+			if strings.HasPrefix(m.kind, "cred-") {
+				m.frame = 1 + r.Intn(2) // the two credentials frames
+				// the receiver of the damaged credentials should be a verifier most of the time
+				if r.Chance(80) {
+					oc.verify, ic.verify = true, true
+				}
+			}
 			w.mutatedPair(oc, ic, m)
 		case k < 11:
 			oc, ic := w.randPair(true)
